@@ -149,12 +149,23 @@ type mapIter struct {
 	mode    int
 	rev     bool
 	started bool
+	rot     []*mapEntry
+}
+
+func (it *mapIter) seen(e *mapEntry) bool {
+	for _, x := range it.rot {
+		if x == e {
+			return true
+		}
+	}
+	return false
 }
 
 const (
 	orderInsertion = 0
-	orderFwdRev    = 1
-	orderAll       = 2
+	orderFwdRev    = 1 // insertion order or its reverse, one choice per path
+	orderAll       = 2 // every permutation, chosen per iteration
+	orderRotate    = 3 // a rotation of insertion order, chosen per iteration (what small Go maps really do)
 )
 
 func (it *mapIter) next(in *Interp) Tuple {
@@ -181,6 +192,37 @@ func (it *mapIter) next(in *Interp) Tuple {
 		e := rem[k]
 		it.visited[e] = true
 		return Tuple{tTrue, copyVal(e.key), copyVal(e.val)}
+	case orderRotate:
+		if !it.started {
+			it.started = true
+			var live []*mapEntry
+			for _, e := range m.order {
+				if !e.deleted {
+					live = append(live, e)
+				}
+			}
+			k := 0
+			if len(live) > 1 {
+				k = in.choose(len(live), "maporder")
+			}
+			it.rot = append(append([]*mapEntry{}, live[k:]...), live[:k]...)
+		}
+		for it.pos < len(it.rot) {
+			e := it.rot[it.pos]
+			it.pos++
+			if !e.deleted {
+				return Tuple{tTrue, copyVal(e.key), copyVal(e.val)}
+			}
+		}
+		// entries inserted during iteration
+		for _, e := range m.order {
+			if !e.deleted && !it.seen(e) {
+				it.rot = append(it.rot, e)
+				it.pos++
+				return Tuple{tTrue, copyVal(e.key), copyVal(e.val)}
+			}
+		}
+		return zk()
 	case orderFwdRev:
 		if !it.started {
 			it.started = true
